@@ -32,7 +32,7 @@ def run(ctx, res):
     lua = _impl()
     res.rule = ('all 256 single bytes, all 65536 byte pairs, seeded random strings (len 0..2000) through '
                 'p8scii_to_unicode/unicode_to_p8scii and the Lean model; malformed Unicode stream (unknown code points, '
-                'truncated multi-code-point spellings); distinct = distinct byte strings / texts; non-trivial = non-empty')
+                'truncated multi-code-point spellings); every byte value in comment lines of a cart written to .p8 and read back; distinct = distinct byte strings / texts; non-trivial = non-empty')
     cases = _cases(ctx)
     # ---- oracle + p2u correspondence
     lines = []
@@ -79,6 +79,32 @@ def run(ctx, res):
         for j, b in enumerate(sp):
             if i != j and a != b and b.startswith(a):
                 res.fail('C15:prefix:%d:%d' % (i, j), 'spelling of %d is a prefix of spelling of %d' % (i, j), {'codes': [i, j]})
+    # ---- "the Unicode text stored in .p8 files": every byte value in a comment line of a cart written to .p8 and read back,
+    # alone on an otherwise ASCII line, next to a glyph >= 0x80, and pairs of low glyph bytes (the file layer must use the mapping for every line)
+    import io as _io
+    import implutil as U
+    from pico8.game.formatter.p8 import P8Formatter
+    code_lines = []
+    for b in range(256):
+        if b in (10, 13):
+            continue
+        code_lines += [b'--' + bytes([b]) + b'z\n', b'--\x8b' + bytes([b]) + b'\n', b'--' + bytes([b, 0x10 + b % 16]) + b'\n']
+    for k in range(0, len(code_lines), 96):
+        chunk = code_lines[k:k + 96]
+        res.evaluations += 1
+        res.count('p8-file-lines', len(chunk))
+        try:
+            g = U.make_game(code=b''.join(chunk), version=8)
+            fh = _io.BytesIO()
+            P8Formatter.to_file(g, fh)
+            text = fh.getvalue()
+            text.decode('utf-8')
+            back = b''.join(P8Formatter.from_file(_io.BytesIO(text)).lua.to_lines())
+        except Exception as e:
+            back = repr(e)
+        if back != b''.join(chunk):
+            res.fail('C15:p8-file:%d' % k, 'comment lines holding each byte value do not survive .p8 write/read (%s)' % (
+                back if isinstance(back, str) else 'code differs'), {'code': hx(b''.join(chunk))})
     # ---- u2p correspondence incl. malformed stream
     rng = ctx.rng
     alphabet = sorted({ch for s in sp for ch in s}) + ['Ā', '\U0001F600', '⬇', '️', 'é']
